@@ -11,7 +11,7 @@ for lg in logs:
         if m:
             results.setdefault((m.group(1), m.group(2)), {})[m.group(3)] = int(m.group(4))
 verify = {}
-for f in glob.glob('/tmp/verify-C*.log')+glob.glob('/tmp/verify2-C*.log')+glob.glob('/tmp/verify3-C*.log')+glob.glob('/tmp/verify4-C*.log'):
+for f in glob.glob('/tmp/verify-C*.log')+glob.glob('/tmp/verify2-C*.log')+glob.glob('/tmp/verify3-C*.log')+glob.glob('/tmp/verify4-C*.log')+glob.glob('/tmp/verify5-C*.log'):
     for line in open(f):
         m = re.match(r"(C\d+)/(\d+): tests-with-patch: (\d+) passed (\d+) failed; demo exit with patch: (\d+); demo exit without: (\d+)", line)
         if m:
